@@ -22,9 +22,9 @@ Proved here, for the model `H5V.Model.XmlTok` of xml5ever's tokenizer (all strin
 * `C15_bom_once` — `discard_bom` is consumed by the first character ever fed and never set again.
 
 **Partial** (`C15_…` statements above are complete for what they say; what is *not* proved):
-independence of `exact_errors` at run level (only the step-level core `C15_fast_eq_slow`), the
-"no raw CR / NUL reaches the sink" clause as a global invariant, the fuel bound of `run`, and
-everything about the tree builder (`xmltok tree` family: code vs code). The oracles of
+the "no raw CR / NUL reaches the sink" clause as a global invariant and everything about the tree
+builder (independence of `exact_errors` at run level is `C15_exact_errors_tokens` in
+`Props/C15Run.lean`; the fuel bound of `run` and totality of `end()` are in `Props/C04XmlTerm.lean`) (`xmltok tree` family: code vs code). The oracles of
 tools/props/C15.py check those on the real code.
 -/
 namespace H5V.Props.C15
